@@ -101,3 +101,42 @@ class Region:
     @property
     def active(self):
         return self.depth > 0
+
+
+# ------------------------------------------------------------------------------------------------ deterministic shims
+_ENT = None
+
+
+def deterministic_entropy(seed):
+    """Make uuid4 / secrets.randbits / datetime.now() deterministic in this process (paired-run monitors only): the
+    opaque identifiers and timestamps are documented as not influencing behaviour (C03 checks that separately), but they
+    do change frame sizes by a few bytes, which would otherwise show up as noise in paired comparisons."""
+    global _ENT
+    import datetime as _dt
+    import random as _random
+    import secrets as _secrets
+    import sys
+    import uuid as _uuid
+
+    if _ENT is None:
+        _ENT = _random.Random()
+        real_uuid4 = _uuid.uuid4
+
+        def fake_uuid4():
+            return _uuid.UUID(int=_ENT.getrandbits(128), version=4)
+
+        for name, mod in list(sys.modules.items()):
+            if name.startswith("primaite") and getattr(mod, "uuid4", None) is real_uuid4:
+                mod.uuid4 = fake_uuid4
+        _secrets.randbits = lambda k: _ENT.getrandbits(k)
+        real = _dt.datetime
+
+        class FixedDT(real):
+            @classmethod
+            def now(cls, tz=None):
+                return real(2030, 1, 1, 12, 0, 0, 123456)
+
+        for name, mod in list(sys.modules.items()):
+            if name.startswith("primaite") and getattr(mod, "datetime", None) is real:
+                mod.datetime = FixedDT
+    _ENT.seed(seed)
